@@ -55,6 +55,7 @@ class DaemonsMemory:
     last_seen_essence: bodies.BodyEssence | None = None  # to notice the reverted changes too
     forever_stopped: set[ids.HandlerId] = dataclasses.field(default_factory=set)
     running_daemons: dict[ids.HandlerId, Daemon] = dataclasses.field(default_factory=dict)
+    operator_exiting: bool = False  # no (re-)spawning once the daemon killer does its final sweep.
     object_gone: bool = False  # the object is deleted for sure: nothing is (re-)spawned for it.
     final_stoppers: set[aiotasks.Task] = dataclasses.field(default_factory=set)
 
@@ -70,6 +71,16 @@ class DaemonsMemoriesIterator(metaclass=abc.ABCMeta):
     @abc.abstractmethod
     def iter_all_daemon_memories(self) -> Iterable[DaemonsMemory]:
         raise NotImplementedError
+
+    def mark_operator_exiting(self) -> None:
+        """
+        Prevent any further spawning of daemons & timers: the operator is exiting.
+
+        The workers can still process their backlogs for some time after the daemon killer
+        has stopped all the daemons. Whatever they would spawn then, nobody would stop.
+        """
+        for memory in self.iter_all_daemon_memories():
+            memory.operator_exiting = True
 
 
 async def spawn_daemons(
@@ -89,6 +100,8 @@ async def spawn_daemons(
     """
     if memory.live_fresh_body is None:  # for type-checking; "not None" is ensured in processing.
         raise RuntimeError("A daemon is spawned with None as body. This is a bug. Please report.")
+    if memory.operator_exiting:  # the daemon killer is gone or going; nobody would stop them.
+        return []
     if memory.object_gone:
         return []
     for handler in handlers:
@@ -358,6 +371,7 @@ async def daemon_killer(
 
     # Terminate all running daemons when the operator exits (and this task is cancelled).
     finally:
+        memories.mark_operator_exiting()
         for memory in list(memories.iter_all_daemon_memories()):
             for daemon in list(memory.running_daemons.values()):
                 await scheduler.spawn(
